@@ -117,6 +117,9 @@ func init() {
 			return termsSlice(out)
 		}
 		bs := SplitBytes(v.t)
+		for len(bs) > 1 && bs[0].IsConst() && bs[0].Int() == 0 { // bytes known to be zero are not part of the bound
+			bs = bs[1:]
+		}
 		n := len(bs)
 		maxNlz := optMaxNlz
 		if maxNlz > n {
@@ -534,7 +537,16 @@ func init() {
 		if c, ok := x.concrete(); ok {
 			return bigSet(a[0], bigConst(new(big.Int).Rsh(c, uint(n.Int()))))
 		}
-		return bigSet(a[0], &bigVal{x.w, Lshr(x.t, BV(x.w, int64(n.Int()))), x.neg})
+		// the representation narrows with the shift (the value is the same): x >> n needs x.w - n bits, rounded
+		// up to whole bytes.  Bytes() explores leading zero bytes relative to the representation width, so a
+		// result kept at the operand's width would put every value of (nonce >> 192) outside that bound
+		sh := n.Int()
+		if sh >= x.w {
+			return bigSet(a[0], bigConst(big.NewInt(0)))
+		}
+		rest := x.w - sh
+		w := (rest + 7) / 8 * 8
+		return bigSet(a[0], &bigVal{w, ZExt(Extract(x.w-1, sh, x.t), w), x.neg})
 	})
 	B("Lsh", func(e *Engine, fr *frame, a []Value) Value {
 		x := bigGet(a[1])
